@@ -13,7 +13,7 @@ var quoteNoiseKinds = map[string][]string{
 	"icmp-echo": {"q-short", "q-none", "q-dst-addr", "q-src-addr", "q-echo-id", "q-echo-seq256", "q-echo-type", "q-unsent", "echo-reply-id", "echo-reply-seq256", "echo-reply-foreign", "echo-reply-unsent"},
 	"udp":       {"q-short", "q-none", "q-dst-addr", "q-dst-port", "q-src-addr", "q-src-port", "q-id", "q-unsent"},
 	"tcp-syn":   {"q-short", "q-none", "q-dst-addr", "q-dst-port", "q-src-addr", "q-src-port", "q-id", "q-tcp-seq", "q-unsent", "tcp-wrong-src", "tcp-wrong-sport", "tcp-wrong-dport", "tcp-wrong-dst", "tcp-ack-wrong", "tcp-flags-other"},
-	"tcp-ack":   {"q-short", "q-none", "q-dst-addr", "q-dst-port", "q-src-addr", "q-src-port", "q-tcp-seq", "q-unsent", "sack-wrong-src", "sack-wrong-sport", "sack-wrong-dport", "sack-wrong-dst", "sack-edge-oob", "sack-edge-unsent", "sack-synflag"},
+	"tcp-ack":   {"q-short", "q-none", "q-dst-addr", "q-dst-port", "q-src-addr", "q-src-port", "q-tcp-seq", "q-unsent", "sack-wrong-src", "sack-wrong-sport", "sack-wrong-dport", "sack-wrong-dst", "sack-edge-oob", "sack-edge-unsent", "sack-synflag", "sack-synack-again"},
 }
 
 var strictOnlyNoise = map[string]bool{"q-src-addr": true, "q-src-port": true}
@@ -261,6 +261,23 @@ func (n *NetWorld) buildNoise(fs *flowSt, p *Probe, ni NoiseItem) (Sched, bool) 
 		tag.Responder = src.String()
 		tag.IsDestForm = true
 		return Sched{Delay: us(ni.DelayUs), Data: tcpReply(src, sport, dst, dport, 0x7000, ack, flags, nil), Tag: tag}, true
+	case "sack-synack-again":
+		// the target retransmits the handshake's SYN-ACK during the run (it has not seen the handshake's last
+		// ACK yet): a segment of the traced connection without a SACK option, which answers no probe and says
+		// nothing about the target's SACK support (it even repeats SACK-permitted)
+		if !fs.haveTCP || !fs.handshaken {
+			return Sched{}, false
+		}
+		opts := []byte{2, 4, 0xff, 0xd7, 4, 2}
+		if fs.hasTS {
+			opts = append(opts, 8, 10, 0x01, 0x02, 0x03, 0x04, 0x0a, 0x0b, 0x0c, 0x0d)
+		}
+		opts = append(opts, 1, 3, 3, 7)
+		for len(opts)%4 != 0 {
+			opts = append(opts, 1)
+		}
+		tag.Responder = target.String()
+		return Sched{Delay: us(ni.DelayUs), Data: tcpReply(target, p.DPort, local, p.SPort, fs.srvSeq, fs.rcvNxt, TCPSyn|TCPAck, opts), Tag: tag}, true
 	case "sack-wrong-src", "sack-wrong-sport", "sack-wrong-dport", "sack-wrong-dst", "sack-edge-oob", "sack-edge-unsent", "sack-synflag":
 		if !fs.haveTCP {
 			return Sched{}, false
